@@ -14,7 +14,8 @@ EXPLANATION = (
     "block before the name is linked into the parent, bumps the parent's count only after the link succeeded, refuses an "
     "over-full parent before anything is allocated, and rolls the block/inode accounting back on every failure after it; "
     "debugfs removal marks the inode deleted, releases its data blocks, its extended-attribute block and the inode itself on "
-    "every path, rmdir refuses a non-empty directory before anything is touched and lowers the parent's count; ext2fs_link "
+    "every path, rmdir refuses a non-empty directory before anything is touched and lowers the parent's count; every site "
+    "that hashes directory names passes a hash version adjusted for the superblock's unsigned-hash flag; ext2fs_link "
     "and ext2fs_unlink report the callback's error and 'not found'.  Decides the bookkeeping on every path for every "
     "history; not hash order, leaf splitting or rec_len arithmetic.")
 
@@ -41,7 +42,7 @@ def _dirent_vars(fn):
     return out
 
 
-def callbacks_of(prog, names=("ext2fs_dir_iterate", "ext2fs_dir_iterate2")):
+def callbacks_of(prog, names=("ext2fs_dir_iterate", "ext2fs_dir_iterate2", "ext2fs_dblist_dir_iterate")):
     """{callback fn: [(caller fn, call node, flags arg)]}"""
     out = {}
     for f in prog.functions():
@@ -53,6 +54,61 @@ def callbacks_of(prog, names=("ext2fs_dir_iterate", "ext2fs_dir_iterate2")):
                 if isinstance(a0, dict) and a0.get("k") == "fn":
                     for g in prog.lookup(a0["n"], f):
                         out.setdefault(g.key, (g, []))[1].append((f, c))
+    return out
+
+
+ITER_FLAGS_ARG = {"ext2fs_dir_iterate": 2, "ext2fs_dir_iterate2": 2, "ext2fs_dblist_dir_iterate": 1}
+
+
+def empty_entry_sites(prog):
+    """[(caller, call, callback, why, ok, flags-arg)] for every directory iteration whose callback depends on being
+    shown unused (inode 0) entries:
+      (a) it merges an entry into the predecessor it remembered from the previous call, or
+      (b) it can report DIRENT_CHANGED for an entry whose inode is 0 (it does work before its `!dirent->inode` test -
+          e.g. forcing every block of a renumbered directory to be rewritten with a new checksum seed)."""
+    out = []
+    changed = named_const(prog, "DIRENT_CHANGED") or 1
+    for key, (g, sites_) in sorted(callbacks_of(prog, tuple(ITER_FLAGS_ARG)).items()):
+        dv = _dirent_vars(g)
+        why = None
+        keeps = [n for n in g.events("S") if T.path(n.ev.get("rhs")) in dv and T.strip(n.ev["lhs"]).get("k") == "m"
+                 and T.last_field(n.ev["lhs"])[0] not in DIRENT_RECS]
+        if keeps:
+            kept_fields = {T.last_field(n.ev["lhs"])[1] for n in keeps}
+            loads = [n for n in g.events("S") if T.strip(n.ev["lhs"]).get("k") == "v" and
+                     any(f_ in T.field_names(n.ev.get("rhs") or {}) for f_ in kept_fields)]
+            prev_vars = {T.path(n.ev["lhs"]) for n in loads}
+            if [n for n in g.nodes() if _dirent_store(n) and (T.path(n.ev["lhs"]) or "").split("->")[0] in prev_vars]:
+                why = "merges an entry into the remembered predecessor (`%s`)" % sorted(prev_vars)
+        if why is None:
+            # (b): with every test of dirent->inode taken on its zero side, can a return carry DIRENT_CHANGED?
+            zero = {}
+            for bid in g.blocks:
+                lit = g.literal(bid)
+                if lit and T.last_field(lit[0]) and T.last_field(lit[0])[0] in DIRENT_RECS and T.last_field(lit[0])[1] == "inode" \
+                        and (T.path(lit[0]) or "").split("->")[0] in dv:
+                    zero[g.block_end(bid)] = lit[1]
+            if zero:
+                def inode_zero(n, si, m, _z=zero):
+                    return not (n in _z and ((si == 0) == _z[n]))
+                ex = absint.Explorer(g, prog)
+                terms = ex.run([g.entry_node()], edge_ok=inode_zero)
+                for (node, env, fl, st) in terms:
+                    if node.ev and node.ev["e"] == "R" and node.ev.get("x") is not None:
+                        x = node.ev["x"]
+                        v = ex.eval(x, env)
+                        if "DIRENT_CHANGED" in T.macros(x) or (isinstance(v, tuple) and v[1] & changed) or \
+                                (v in ("NZ", "T") and T.strip(x).get("k") == "v" and any(
+                                    "DIRENT_CHANGED" in T.macros(n.ev.get("rhs") or {}) for n in g.events("S")
+                                    if T.path(n.ev["lhs"]) == T.path(x))):
+                            why = "can report DIRENT_CHANGED for an entry whose inode is 0"
+                            break
+        if why is None:
+            continue
+        for (f, c) in sites_:
+            nm = [k for k in T.call_names(c.ev["x"]) if k in ITER_FLAGS_ARG]
+            fl = arg(c, ITER_FLAGS_ARG[nm[0]]) if nm else None
+            out.append((f, c, g, why, "DIRENT_FLAG_INCLUDE_EMPTY" in T.macros(fl or {}), fl))
     return out
 
 
@@ -105,30 +161,19 @@ def run(world, rep, tier, only=None):
                    (len(mods), bad[:2]), {"entry": g.name, "paths": bad[:2]} if bad else None)
     rep.floor("C10.a directory-iterator callbacks that modify entries", n_mod, 3)
 
-    # ------------------------------------------------------------------ C10.b predecessor-merging callbacks see every entry
+    # ------------------------------------------------------------------ C10.b callbacks that need unused entries get them
     n_prev = 0
-    for key, (g, sites_) in sorted(callbacks_of(dbg).items()):
-        # remembers the previous dirent in its private data and later changes that entry's rec_len
-        dv = _dirent_vars(g)
-        keeps = [n for n in g.events("S") if T.path(n.ev.get("rhs")) in dv and T.strip(n.ev["lhs"]).get("k") == "m"
-                 and T.last_field(n.ev["lhs"])[0] not in DIRENT_RECS]
-        if not keeps:
-            continue
-        kept_fields = {T.last_field(n.ev["lhs"])[1] for n in keeps}
-        loads = [n for n in g.events("S") if T.strip(n.ev["lhs"]).get("k") == "v" and
-                 any(f in T.field_names(n.ev.get("rhs") or {}) for f in kept_fields)]
-        prev_vars = {T.path(n.ev["lhs"]) for n in loads}
-        merges = [n for n in g.nodes() if _dirent_store(n) and (T.path(n.ev["lhs"]) or "").split("->")[0] in prev_vars]
-        if not merges:
-            continue
-        n_prev += 1
-        for (f, c) in sites_:
-            fl = arg(c, 2)
-            ok = "DIRENT_FLAG_INCLUDE_EMPTY" in T.macros(fl or {})
+    seen_b = set()
+    for prog in (dbg, efs, world.program("resize2fs"), world.program("tune2fs"), world.program("mke2fs")):
+        for (f, c, g, why, ok, fl) in empty_entry_sites(prog):
+            k = (f.file, f.name, g.name)
+            if k in seen_b:
+                continue
+            seen_b.add(k)
+            n_prev += 1
             rep.ob("C10.b", site(f, "%s runs over unused entries too" % g.name), ok,
-                   "%s merges an entry into the remembered predecessor (`%s`), so the iteration flags `%s` must contain "
-                   "DIRENT_FLAG_INCLUDE_EMPTY" % (g.name, sorted(prev_vars), T.pp(fl)[:40]))
-    rep.floor("C10.b predecessor-merging callbacks", n_prev, 1)
+                   "%s %s, so the iteration flags `%s` must contain DIRENT_FLAG_INCLUDE_EMPTY" % (g.name, why, T.pp(fl)[:40]))
+    rep.floor("C10.b callbacks that need unused entries", n_prev, 2)
 
     # ------------------------------------------------------------------ C10.c link counts are limited
     n_inc = 0
@@ -256,6 +301,19 @@ def run(world, rep, tier, only=None):
     pdec = [n for n in rd.events("S") if T.last_field(n.ev["lhs"]) and T.last_field(n.ev["lhs"])[1] == "i_links_count" and
             n.ev.get("o") in ("--", "-=")]
     rep.ob("C10.e", site(rd, "parent's link count lowered"), bool(pdec), "inode.i_links_count-- for the parent")
+
+    # ------------------------------------------------------------------ C10.g one hash version everywhere
+    from vlib import dirhash
+    hs = dirhash.sites(dbg, ("lib/ext2fs/link.c", "lib/ext2fs/lookup.c", "lib/ext2fs/namei.c", "debugfs/"))
+    rep.floor("C10.g directory-hash call sites in the library and debugfs", len(hs), 3)
+    for (f, c, ok, how) in hs:
+        if ok is None:
+            rep.examined()
+            continue
+        same = sorted([n for n in calls_to(f, "ext2fs_dirhash2", "ext2fs_dirhash")], key=lambda n: (n.line, n.idx))
+        rep.ob("C10.g", site(f, "hash version adjusted for UNSIGNED_HASH#%d" % same.index(c)), ok,
+               "ext2fs_dirhash2(%s, …): the version went through the unsigned-hash adjustment (index placement must equal "
+               "the kernel's)" % how)
 
     # ------------------------------------------------------------------ C10.f link/unlink report the outcome
     for (file, name, cb, nf) in (("lib/ext2fs/unlink.c", "ext2fs_unlink", "unlink_proc", "EXT2_ET_DIR_NO_SPACE"),
